@@ -175,13 +175,14 @@ type replayFile struct {
 	Key      string          `json:"key"`
 	Msg      string          `json:"msg"`
 	Case     json.RawMessage `json:"case"`
+	Fresh    bool            `json:"fresh_process,omitempty"` // found in a process that started without the hostile prelude: replay it the same way
 }
 
 func writeReplay(id string, caseJSON []byte, key, msg string) string {
 	if replayOut == "" {
 		return ""
 	}
-	b, _ := json.MarshalIndent(replayFile{Property: id, Test: currentTest, Mode: mode, Key: key, Msg: msg, Case: caseJSON}, "", " ")
+	b, _ := json.MarshalIndent(replayFile{Property: id, Test: currentTest, Mode: mode, Key: key, Msg: msg, Case: caseJSON, Fresh: os.Getenv("VERIF_NO_PRELUDE") != ""}, "", " ")
 	_ = os.WriteFile(replayOut, b, 0o644)
 	return replayOut
 }
@@ -190,7 +191,7 @@ func writeJournal(id string, caseJSON []byte) {
 	if journal == "" {
 		return
 	}
-	b, _ := json.Marshal(replayFile{Property: id, Test: currentTest, Mode: mode, Key: "crash", Msg: "process died while executing this case", Case: caseJSON})
+	b, _ := json.Marshal(replayFile{Property: id, Test: currentTest, Mode: mode, Key: "crash", Msg: "process died while executing this case", Case: caseJSON, Fresh: os.Getenv("VERIF_NO_PRELUDE") != ""})
 	_ = os.WriteFile(journal, b, 0o644)
 }
 
